@@ -380,13 +380,17 @@ func directiveNames(repo string) map[string]bool {
 // outputChecks: the generated packages type-check without the cff tag and no
 // call to a directive remains in generated files.
 func outputChecks(sink *vc.Sink, mode string, lr *vc.LoadResult, bad map[string][]string, directives map[string]bool, modPrefix string) (files int) {
+	props := []string{"C13"}
+	if mode == "modifier" {
+		props = []string{"C13", "C20"}
+	}
 	var badNames []string
 	for p := range bad {
 		badNames = append(badNames, p)
 	}
 	sort.Strings(badNames)
 	for _, p := range badNames {
-		structural(sink, "output:"+mode, "type-checks", "generated-package-type-checks", []string{"C13"}, false, p+": "+strings.Join(bad[p], "; "))
+		structural(sink, "output:"+mode, "type-checks", "generated-package-type-checks", props, false, p+": "+strings.Join(bad[p], "; "))
 	}
 	var visit func(p *packages.Package)
 	seen := map[*packages.Package]bool{}
@@ -395,7 +399,7 @@ func outputChecks(sink *vc.Sink, mode string, lr *vc.LoadResult, bad map[string]
 			return
 		}
 		seen[p] = true
-		structural(sink, "output:"+mode, "type-checks", "generated-package-type-checks", []string{"C13"}, true, p.PkgPath)
+		structural(sink, "output:"+mode, "type-checks", "generated-package-type-checks", props, true, p.PkgPath)
 		for i, f := range p.Syntax {
 			name := p.CompiledGoFiles[i]
 			if !strings.HasSuffix(name, "_gen.go") && !strings.HasSuffix(name, "_gen_test.go") {
@@ -423,7 +427,7 @@ func outputChecks(sink *vc.Sink, mode string, lr *vc.LoadResult, bad map[string]
 				}
 				return true
 			})
-			structural(sink, "output:"+mode, "no-directive-left", "no-directive-call-in-output", []string{"C13"}, left == "", filepath.Base(name)+" "+left)
+			structural(sink, "output:"+mode, "no-directive-left", "no-directive-call-in-output", props, left == "", filepath.Base(name)+" "+left)
 		}
 		for _, imp := range p.Imports {
 			visit(imp)
